@@ -63,7 +63,7 @@ def run_case(case: Dict[str, Any], ctx) -> None:
         # make sure a gelu is present
         B, S, D = prog["dims"]["B"], prog["dims"]["S"], prog["dims"]["D"]
         last = prog["outputs"][0]
-        prog["ops"].append({"out": "v900", "op": "gelu", "in": [last], "kw": {}})
+        prog["ops"].append({"out": "v900", "op": "gelu" if case["seed"] % 2 == 0 else "custom_act", "in": [last], "kw": {}})
         prog["outputs"] = ["v900"]
     else:
         prog = progs.gen_program(rng, case["profile"])
@@ -78,11 +78,17 @@ def run_case(case: Dict[str, Any], ctx) -> None:
 
     replace_kw = {}
     interp_replace = None
-    if replace_case:
+    if replace_case and case["seed"] % 2 == 0:
         def custom_gelu(x, approximate="none"):
             return U.gelu(x, mult=2.0, constraint=None) * 1.0
         replace_kw = {"replace": {F.gelu: custom_gelu}}
-        interp_replace = {"gelu": lambda x: U.gelu(x, mult=2.0, constraint=None) * 1.0}
+        interp_replace = {"gelu": lambda x, **kw: U.gelu(x, mult=2.0, constraint=None) * 1.0}
+    elif replace_case:
+        # the documented use: the model calls the user's own function, which is mapped onto a unit-scaled op
+        import sys as _sys
+        my_act = getattr(_sys.modules[type(m).__module__], "my_act")
+        replace_kw = {"replace": {my_act: U.gelu}}
+        interp_replace = {"custom_act": lambda x, **kw: U.gelu(x, **kw)}
     try:
         us = unit_scale(m, **replace_kw)
     except Exception as e:
